@@ -296,6 +296,15 @@ func main() {
 	// the empty string in every column somewhere (the documented exception)
 	rows[0][0], rows[1][1], rows[2][2] = pool[14], pool[14], pool[14]
 	rows[3][3], rows[4][3] = pool[25], pool[26]
+	// every column holds a value of every kind (negative number, date, string, boolean, "")
+	for j := 0; j < 4; j++ {
+		for k, sp := range []konst{pool[11] /* -2.5 */, pool[19+rnd.Intn(3)], pool[15+rnd.Intn(4)], pool[rnd.Intn(2)], pool[6] /* -1 */} {
+			r := (3*j + 2*k + 5) % nrows
+			if rows[r][j].lit != `""` && rows[r][j].av.T != "obj" {
+				rows[r][j] = sp
+			}
+		}
+	}
 
 	st := stor.HeapStor(8192)
 	db := db19.CreateDb(st)
@@ -501,6 +510,13 @@ func main() {
 			test(bin(op, leaf(0), leaf(1)), []int{c, (c + 1) % 4}, []konst{{}, {}})
 		}
 	}
+	// 1b. type tests on every column, plain and negated
+	for c := 0; c < 4; c++ {
+		for _, f := range calls {
+			test(un(f, leaf(0)), []int{c}, []konst{{}})
+			test(un("not", un(f, leaf(0))), []int{c}, []konst{{}})
+		}
+	}
 	// 2. ranges, in, logical combinations of comparisons, ternary, type tests, arithmetic in comparisons
 	cmpLeaf := func(next *int, col *[]int, ks *[]konst) *expr {
 		op := cmpOps[rnd.Intn(len(cmpOps))]
@@ -528,7 +544,24 @@ func main() {
 		var col []int
 		var ks []konst
 		var e *expr
-		switch rnd.Intn(9) {
+		switch rnd.Intn(10) {
+		case 9: // alternatives on the same column (index spans are merged)
+			c := rnd.Intn(4)
+			n := 2 + rnd.Intn(2)
+			for j := 0; j < n; j++ {
+				col = append(col, c, -1)
+				k := rows[rnd.Intn(nrows)][c]
+				if rnd.Intn(5) == 0 {
+					k = pick()
+				}
+				ks = append(ks, konst{}, k)
+				t := bin(cmpOps[rnd.Intn(len(cmpOps))], leaf(2*j), leaf(2*j+1))
+				if e == nil {
+					e = t
+				} else {
+					e = bin("or", e, t)
+				}
+			}
 		case 0, 1: // a > x and a < y  (folded to a range)
 			c := rnd.Intn(4)
 			lo, hi := rows[rnd.Intn(nrows)][c], rows[rnd.Intn(nrows)][c]
